@@ -30,7 +30,7 @@ class SliceModel:
     def __init__(self, prog, roles):
         self.prog = prog
         self.roles = roles
-        self.adt = roles.tok_adt
+        self.adt = getattr(roles, 'scan_adt', None) or roles.tok_adt
         self.input_idx = self.chars_idx = None
         if self.adt:
             fl = self.adt['variants'][0]['fields']
@@ -88,6 +88,9 @@ class SliceModel:
         for o in origins:
             if o.kind == 'param' and o.data == 1 and o.proj[:1] == (('f', idx),) and self._self_is_tok(body):
                 continue
+            # the scanning state nested in the tokenizer proper: `(*self).cursor.input`
+            if o.kind == 'param' and o.data == 1 and self._nested_idx(body) is not None and o.proj[:2] == (('f', self._nested_idx(body)), ('f', idx)):
+                continue
             # upvar of a closure capturing self.input: traced through the creating body
             if o.kind == 'param' and o.data == 1 and body.is_closure:
                 if self._closure_capture_is(body, o.proj, idx):
@@ -97,6 +100,14 @@ class SliceModel:
 
     def _self_is_tok(self, body):
         return body.arg_count >= 1 and self.adt['name'] in body.locals[1]['ty']
+
+    def _nested_idx(self, body):
+        """self is the tokenizer proper and the scanning state is one of its fields: that field's index"""
+        w = self.roles.tok_adt
+        if w is None or w is self.adt or body.arg_count < 1 or w['name'] not in body.locals[1]['ty'] or self.adt['name'] in body.locals[1]['ty']:
+            return None
+        ks = [k for k, fl in enumerate(w['variants'][0]['fields']) if re.sub(r'<.*$', '', fl['ty']) == self.adt['name']]
+        return ks[0] if len(ks) == 1 else None
 
     def _closure_capture_is(self, clo, proj, idx):
         # closure param 1 = environment; proj (f k) = k-th capture
@@ -576,7 +587,7 @@ def rule_slice(sm):
     prog, roles = sm.prog, sm.roles
     obs = sm.rule_invariant()
     sites = slice_sites(prog, roles)
-    obs.append(floor('SLICE', 'slice-sites', len(sites), 3, 'token text is cut out of the input by slicing'))
+    obs.append(floor('SLICE', 'slice-sites', len(sites), 1, 'token text is cut out of the input by slicing (one shared slicing helper is enough)'))
     first, verdicts = _judge_sites(sm, sites)
     if any(o.status == 'violated' for o in first):
         # second reading: the same slice sites where they end up when closures handed to combinators and private
